@@ -36,7 +36,7 @@ MULTI_OK = ["ATTACH", "ATTENDEE", "COMMENT", "CONTACT", "EXDATE", "RDATE", "RRUL
 
 def dec_value(x, provider=None):
     k = x["k"]
-    if k in ("date", "naive", "utc", "zoned", "td", "none", "fixed"):
+    if k in ("date", "naive", "utc", "zoned", "td", "none", "fixed", "pfixed"):
         return V.dec(x, provider)
     if k in ("text", "uri", "caladdr"):
         return x["v"]
